@@ -909,8 +909,8 @@ func verifReplacements() map[string]any {
 		"(*" + verifK + ".PallasPoint).ScalarOp":        verifPtScalarOp,
 		"(*" + verifK + ".PallasPoint).AffineX":         verifPtAffineX,
 		"(*" + verifK + ".PallasPoint).AffineY":         verifPtAffineY,
-		"(*" + verifK + ".PallasPoint).ToCompressed":    verifPtToCompressed,
-		"(*" + verifK + ".PallasPoint).Bytes":           verifPtBytes,
+		"(*" + verifK + ".PallasPoint).ToCompressed":    verifUnmodelled,
+		"(*" + verifK + ".PallasPoint).Bytes":           verifUnmodelled,
 		"(*" + verifK + ".PallasPoint).IsTorsionFree":   verifPtIsTorsionFree,
 		"(*" + verifK + ".PallasPoint).ToUncompressed":  verifUnmodelled,
 		"(*" + verifK + ".PallasPoint).HashCode":        verifUnmodelled,
@@ -922,8 +922,8 @@ func verifReplacements() map[string]any {
 		"(*" + verifK + ".PallasCurve).ScalarBaseOp":     verifCurveScalarBaseOp,
 		"(*" + verifK + ".PallasCurve).MultiScalarMul":   verifCurveMultiScalarMul,
 		"(*" + verifK + ".PallasCurve).MultiScalarOp":    verifCurveMultiScalarOp,
-		"(*" + verifK + ".PallasCurve).FromCompressed":   verifCurveFromCompressed,
-		"(*" + verifK + ".PallasCurve).FromBytes":        verifCurveFromBytes,
+		"(*" + verifK + ".PallasCurve).FromCompressed":   verifUnmodelled,
+		"(*" + verifK + ".PallasCurve).FromBytes":        verifUnmodelled,
 		"(*" + verifK + ".PallasCurve).FromUncompressed": verifUnmodelled,
 		"(*" + verifK + ".PallasCurve).FromAffine":       verifUnmodelled,
 		"(*" + verifK + ".PallasCurve).FromAffineX":      verifCurveFromAffineX,
